@@ -41,11 +41,15 @@ class Rig:
 
     def _send(self, origin, cid, data, remote):
         self.frames.append((origin, cid, data, remote))
-        if remote:
-            return
         ts = sx.fresh_int("ts", 0, 1 << 40)
-        self.ts.append(ts)
-        (self.nb if origin == "a" else self.na).notify(cid, sx.mkbytes(sx.items(data)), ts)
+        if not remote:
+            self.ts.append(ts)
+        # the frame reaches the other station the way python-can delivers it: as a Message through the bus listener
+        # (remote requests as remote frames without data)
+        can = sx.mod("canopen.network").can
+        msg = can.Message(arbitration_id=cid, data=None if remote else sx.mkbytes(sx.items(data)),
+                          is_remote_frame=bool(remote), is_extended_id=bool(cid > 0x7FF), timestamp=ts)
+        (self.nb if origin == "a" else self.na).listeners[0].on_message_received(msg)
 
 
 def _configure(m, layout, cob):
@@ -209,11 +213,21 @@ def remote_request():
     cm = rig.consumer.tpdo[1]
     cob = sx.fresh_int("cob", 0x181, 0x57F)
     _configure(cm, "aligned", cob)
+    # the producer's own map on that COB-ID holds the values to be sent: a remote request must not disturb it
+    pm = rig.producer.tpdo[1]
+    _configure(pm, "aligned", cob)
+    image = sx.fresh_bytes("image", len(pm.data))
+    for i, b in enumerate(sx.items(image)):
+        pm.data[i] = b
+    pcalls = []
+    pm.add_callback(lambda mp: pcalls.append(mp))
     cm.enabled = bool(sx.choice(2, "enabled"))
     cm.rtr_allowed = bool(sx.choice(2, "rtr"))
     n0 = len(rig.frames)
     cm.remote_request()
     new = rig.frames[n0:]
+    sx.prove(sx.eq_bytes(sx.mkbytes(sx.items(pm.data)), image) and len(pcalls) == 0 and not pm.is_received,
+             "a remote request frame was taken for received data by the map on that COB-ID", "C15/rtr/disturbs-producer")
     if cm.enabled and cm.rtr_allowed:
         sx.prove(len(new) == 1 and new[0][3] is True and len(sx.items(new[0][2])) == 0, "one empty remote frame",
                  "C15/rtr/frame")
